@@ -69,7 +69,7 @@ func TestCheck(t *testing.T) {
 			e.deadlockPass(tg)
 		}
 	}
-	e.timerRacePass()
+	e.racePass(raceFamilies())
 	// isolated parts (child processes, mostly waiting on loopback round trips) run alongside the in-process parts
 	isoDone := make(chan struct{})
 	go func() {
@@ -108,7 +108,7 @@ func replay(run *report.Run, e *engine, ts []*target) int {
 	}
 	if strings.Contains(name, "|| restart timer expiry") { // Engine B two-thread part: re-explore it
 		*report.FlagPart = name
-		e.timerRacePass()
+		e.racePass(raceFamilies())
 		e.reportViolations()
 		if run.NumViolations() == 0 {
 			fmt.Println("replay: no interleaving of", name, "fails")
